@@ -103,6 +103,8 @@ def setup(ctx):
                     if s not in db.unit_to_unit_info and s != u:
                         leg.setdefault(qt, []).append(s)
     ctx.legacy = {k: sorted(set(v)) for k, v in leg.items()}
+    # the category a category-less construction lands in: the unit's default_category, else its quantity type
+    ctx.defcat = {qt: {i.unit: (i.default_category or qt) for i in infos} for qt, infos in db.quantity_types.items()}
     # unit symbols registered under several quantity types (the symbol index names another type)
     ctx.multi = {qt: [u for u in us if db.unit_to_unit_info[u].quantity_type != qt] for qt, us in ctx.units.items()}
     ctx.multi_types = sorted(qt for qt, us in ctx.multi.items() if us)
@@ -116,8 +118,9 @@ def add_op(category, qtype=None, valid=None, override=False, du=None, dv=None, m
                 minx=minx, maxx=maxx, frm=frm)
 
 
-def obj_op(cat, unit, obj, calls, default=False):
-    return dict(k="obj", cat=cat, unit=unit, obj=obj, calls=list(calls), default=default)
+def obj_op(cat, unit, obj, calls, default=False, fixed=False):
+    """cat=None: the category-less construction forms (`Scalar(v, unit)`, `Array(values, unit)`, ...)"""
+    return dict(k="obj", cat=cat, unit=unit, obj=obj, calls=list(calls), default=default, fixed=fixed)
 
 
 def copy_op(cat, unit, obj, calls, cunit, ccat, ccalls, fixed=False):
@@ -175,7 +178,7 @@ def _enc(op):
     if op["k"] == "copy":
         return {"k": "copy", "cat": S(op["cat"]), "unit": S(op["unit"]), "obj": _enc_obj(op["obj"]),
                 "calls": op["calls"], "cunit": S(op["cunit"]), "ccat": S(op["ccat"]), "ccalls": op["ccalls"]}
-    return {"k": "obj", "cat": S(op["cat"]), "unit": S(op["unit"]), "default": op["default"],
+    return {"k": "obj", "cat": S(op["cat"]), "unit": S(op["unit"]), "default": op["default"],  # cat null = category-less
             "obj": _enc_obj(op["obj"]), "calls": op["calls"]}
 
 
@@ -481,6 +484,53 @@ def _from_histories(ctx, salt, n):
         yield history(ops)
 
 
+def _reregister_histories(ctx, salt, n):
+    """objects built with and without naming the category, around re-registrations (override=True) of the
+    default category of their unit with other limits"""
+    rng = ctx.fresh_rng("C12rereg" + salt)
+    for i in range(n):
+        qt = rng.choice(QTYPES_QUICK)
+        us = ctx.units[qt]
+        dc = rng.choice([qt, qt, ctx.defcat[qt][rng.choice(us)]])     # e.g. 'delta temperature' for 'ddegC'
+        mine = [u for u in us if ctx.defcat[qt][u] == dc]
+        du = rng.choice(mine[:6])
+        steps = rng.choice([
+            [(0.0, 100.0), (0.0, 10.0)],                 # tighter
+            [(0.0, 10.0), (0.0, 100.0)],                 # wider
+            [(None, None), (0.0, 10.0)],                 # none -> some
+            [(0.0, 10.0), (None, None)],                 # some -> none
+            [(-20.0, 100.0), (None, 10.0), (5.0, None)],
+            [(0.0, 100.0), (20.0, 200.0), (0.0, 10.0)],
+        ])
+        ops = []
+        if rng.random() < 0.3:
+            ops.append(obj_op(None, rng.choice(mine), o_scalar(1.0), ["i"]))     # no default category registered yet
+        for j, (lo, hi) in enumerate(steps):
+            dv = None
+            ops.append(add_op(dc, qt, du=du, dv=dv, mn=lo, mx=hi, override=(j > 0) or rng.random() < 0.3,
+                              minx=rng.random() < 0.2 and lo is not None and False))
+            for u in [du] + rng.sample(mine, min(2, len(mine))):
+                ys = [1.0, 50.0, 150.0, -5.0, 7.0, 15.0]
+                rng.shuffle(ys)
+                for y in ys[:3]:
+                    x = y if u == du else _conv(ctx, qt, du, u, y)
+                    for named in (False, True):
+                        ops.append(obj_op(dc if named else None, u, o_scalar(x), rng.choice([["i"], ["c"], ["i", "c"]])))
+                arr = [y if u == du else _conv(ctx, qt, du, u, y) for y in (1.0, 50.0)]
+                kind = rng.choice(CONTAINERS)
+                fixed = rng.random() < 0.4
+                for named in (False, True):
+                    ops.append(obj_op(dc if named else None, u, o_flat(kind, arr), ["i", "c"], fixed=fixed))
+                y = rng.choice([1.0, 50.0, 8.0])
+                x = y if u == du else _conv(ctx, qt, du, u, y)
+                if math.isfinite(x):
+                    for named in (False, True):
+                        ops.append(obj_op(dc if named else None, u, o_fraction(float(math.floor(x)), rng.randint(0, 3), 4), ["c", "i"]))
+            if rng.random() < 0.3:
+                ops.append(obj_op(None, rng.choice(ctx.legacy.get(qt, []) + ["nope", rng.choice(us)]), o_scalar(2.0), ["i"]))
+        yield history(ops)
+
+
 def cases(ctx):
     if ctx.tier == "quick":
         rng = ctx.fresh_rng("C12types")
@@ -489,6 +539,7 @@ def cases(ctx):
         yield from _shadow_histories(ctx, "q", 6)
         yield from _copy_histories(ctx, "q", 40)
         yield from _from_histories(ctx, "q", 40)
+        yield from _reregister_histories(ctx, "q", 40)
     else:
         rng = ctx.fresh_rng("C12types")
         extra = rng.sample(ctx.types, 12)
@@ -498,6 +549,7 @@ def cases(ctx):
         yield from _shadow_histories(ctx, "t", 40)
         yield from _copy_histories(ctx, "t", 400)
         yield from _from_histories(ctx, "t", 300)
+        yield from _reregister_histories(ctx, "t", 300)
 
 
 def model_line(c):
@@ -548,22 +600,28 @@ def _elements(o):
 def _build(op):
     """the value object of an `obj` operation (the private database is the singleton here)"""
     from barril.basic.fraction import FractionValue
-    from barril.units import Array, FractionScalar, Scalar
+    from barril.units import Array, FixedArray, FractionScalar, Scalar
 
     o = op["obj"]
     t = o["t"]
+    cat, unit = op["cat"], op["unit"]
+    named = cat is not None
     if op["default"]:
-        return Scalar(op["cat"])
+        return Scalar(cat)
     if t == "scalar":
-        return Scalar(op["cat"], U(o["v"]), op["unit"])
+        return Scalar(cat, U(o["v"]), unit) if named else Scalar(U(o["v"]), unit)
     if t == "dscalar":
-        return Scalar(op["cat"], U(o["v"]), op["unit"]) * Scalar(op["cat"], 1.0, op["unit"])
+        return Scalar(cat, U(o["v"]), unit) * Scalar(cat, 1.0, unit)
     if t == "fraction":
-        return FractionScalar(op["cat"], FractionValue(number=U(o["number"]), fraction=(o["n"], o["d"])), op["unit"])
+        fv = FractionValue(number=U(o["number"]), fraction=(o["n"], o["d"]))
+        return FractionScalar(cat, fv, unit) if named else FractionScalar(fv, unit)
     if t == "dflat":
-        a = Array(op["cat"], _mk_values(o), op["unit"])
-        return a * Array(op["cat"], [1.0] * len(o["vs"]), op["unit"])
-    return Array(op["cat"], _mk_values(o), op["unit"])
+        a = Array(cat, _mk_values(o), unit)
+        return a * Array(cat, [1.0] * len(o["vs"]), unit)
+    if op.get("fixed") and t == "flat":
+        n = len(o["vs"])
+        return FixedArray(n, cat, _mk_values(o), unit) if named else FixedArray(n, _mk_values(o), unit)
+    return Array(cat, _mk_values(o), unit) if named else Array(_mk_values(o), unit)
 
 
 def _num(x):
@@ -615,7 +673,7 @@ def _run_op(db, op):
         obj = _build(op)
     except Exception as e:
         return dict(err=err_kind(e))
-    res = dict(unit=obj.GetUnit(), outs=_run_calls(obj, op["calls"]))
+    res = dict(unit=obj.GetUnit(), cat=obj.GetCategory(), outs=_run_calls(obj, op["calls"]))
     o = op["obj"]
     if op["default"]:
         try:
@@ -721,7 +779,7 @@ def impl(c, ctx):
                              ("validated-first" if op["calls"] else "not-validated-first") +
                              ("/other-category" if op["ccat"] and op["ccat"] != op["cat"] else "/same-category"))
         else:
-            key = "obj/" + ("default" if op["default"] else op["obj"]["t"])
+            key = "obj/" + ("default" if op["default"] else op["obj"]["t"]) + ("" if op["cat"] is not None else "/no-category")
             for call, r in zip(op["calls"], o["ok"]["outs"]):
                 kk = "call/%s/%s" % (call, ("verr" + r["verr"]["op"]) if "verr" in r else ("err-" + r["err"]) if "err" in r else repr(r["ok"]))
                 n[kk] = n.get(kk, 0) + 1
@@ -828,7 +886,12 @@ def _agree_obj(op, io, mo, cats, ctx):
             return None if a["err"] == b["err"] else "copy: error kinds differ: impl=%s model=%s" % (a["err"], b["err"])
         why = _agree_payload(a["ok"], b["ok"], cats.get(op["ccat"] or op["cat"]), ctx)
         return ("copy: " + why) if why else None
-    return _agree_payload(io["ok"], mo["ok"], cats.get(op["cat"]), ctx,
+    cat = op["cat"]
+    if cat is None:
+        cat = io["ok"].get("cat")
+        if cat != unsym(int(mo["ok"].get("cat", "0"))):
+            return "category of a category-less construction: impl=%s model=%s" % (cat, unsym(int(mo["ok"].get("cat", "0"))))
+    return _agree_payload(io["ok"], mo["ok"], cats.get(cat), ctx,
                           derived=op["obj"]["t"] in ("dscalar", "dflat"), default=op["default"])
 
 
@@ -931,7 +994,13 @@ def _judge(db, obj, els, skip_nan, want, show):
     from barril.units.exceptions import QuantityValidationError
 
     q = obj.GetQuantity()
-    info = _Lim(q.GetCategoryInfo(), want)
+    try:
+        # the object was created just now: the limits in force are those of the registry's CURRENT entry for its
+        # category (a re-registration applies to every object created after it, whatever the construction form)
+        current = db.GetCategoryInfo(obj.GetCategory())
+    except Exception:
+        current = q.GetCategoryInfo()
+    info = _Lim(current, want)
     unit = q.GetUnit()
     limited = info.min_value is not None or info.max_value is not None
     expected = True
@@ -994,7 +1063,8 @@ def _oracle_obj(db, op, obj, wants):
         els, skip_nan = _elements(o), False
     else:
         els, skip_nan = _elements(o), o["t"] == "flat"
-    return _judge(db, obj, els, skip_nan, wants.get(obj.GetCategory()), dict(object=o))
+    return _judge(db, obj, els, skip_nan, wants.get(obj.GetCategory()),
+                  dict(object=o, category_named=op["cat"] is not None, fixed=bool(op.get("fixed"))))
 
 
 def _oracle_copy(db, op, wants):
@@ -1129,6 +1199,7 @@ def oracle(c, ctx):
 
 
 def search(ctx):
+    yield from _reregister_histories(ctx, "s", 60)
     yield from _copy_histories(ctx, "s", 60)
     yield from _from_histories(ctx, "s", 60)
     yield from _config_histories(ctx, "s", QTYPES_QUICK, 4, True)
